@@ -469,22 +469,32 @@ fn transform_field_set<'a>(
                     ),
                     {
                         let type_name = syn::parse_str::<syn::Path>(fc.type_name()).unwrap();
-                        match enum_list.clone().find(|e| e.name == fc.type_name()) {
+                        // Enums we generate can share a name when they're behind different cfgs.
+                        // What we know about the enum must then hold for all of them
+                        let mut named_enums = enum_list
+                            .clone()
+                            .filter(|e| e.name == fc.type_name())
+                            .peekable();
+                        let field_bits = field.field_address.clone().count();
+
+                        if fc.use_try() {
                             // Always use try if that's specified
-                            _ if fc.use_try() => {
-                                lir::FieldConversionMethod::TryInto(quote! { #type_name })
-                            }
-                            // There is an enum we generate so we can look at its metadata
-                            Some(mir::Enum {
-                                generation_style:
-                                    Some(mir::EnumGenerationStyle::Infallible { bit_size }),
-                                ..
-                            }) if field.field_address.clone().count() <= *bit_size as usize => {
-                                // This field is equal or smaller in bits than the infallible enum. So we can do the unsafe into
-                                lir::FieldConversionMethod::UnsafeInto(quote! { #type_name })
-                            }
+                            lir::FieldConversionMethod::TryInto(quote! { #type_name })
+                        } else if named_enums.peek().is_some()
+                            && named_enums.all(|e| {
+                                matches!(
+                                    e.generation_style,
+                                    Some(mir::EnumGenerationStyle::Infallible { bit_size })
+                                        if field_bits <= bit_size as usize
+                                )
+                            })
+                        {
+                            // There is an enum we generate so we can look at its metadata.
+                            // This field is equal or smaller in bits than the infallible enum. So we can do the unsafe into
+                            lir::FieldConversionMethod::UnsafeInto(quote! { #type_name })
+                        } else {
                             // Fallback is to require the into trait
-                            _ => lir::FieldConversionMethod::Into(quote! { #type_name }),
+                            lir::FieldConversionMethod::Into(quote! { #type_name })
                         }
                     },
                 ),
